@@ -18,48 +18,57 @@ def regen(ctx):
     return fails
 
 
+PROPS_MODULES = ["Hive.Props.C19", "Hive.Props.C19Ops", "Hive.Props.C19Err", "Hive.Props.C19Add", "Hive.Props.C19Sub", "Hive.Props.C19Mul", "Hive.Props.C19Div", "Hive.Props.C19Shl",
+                 "Hive.Props.C19MulU64", "Hive.Props.C19MulI64", "Hive.Props.C19MulDiv"]
+
+
 def _broken_theorems(ctx):
-    """Names the lemma(s) at which `lake build` failed and the C19_* theorems that rest on them (textual dependency
-    closure over Hive/Props/C19.lean)."""
+    """Names the module(s) and lemma(s) at which `lake build` failed, the C19_* theorems that rest on them (import closure of
+    the per-function Props modules) and the ones that were still proved about the changed tree."""
     import re
-    locs = []
-    for f in ctx.obligation_failures:
-        if isinstance(f, dict) and f.get("kind") == "lake-build":
-            for m in re.finditer(r"error: (Hive/[\w/]+\.lean):(\d+):\d+", f.get("detail", "")):
-                locs.append((m.group(1), int(m.group(2))))
+    detail = "\n".join(f.get("detail", "") for f in ctx.obligation_failures if isinstance(f, dict) and f.get("kind") == "lake-build")
+    if not detail:
+        return None
+    failed = set(re.findall(r"^- (Hive\.[\w.]+)\s*$", detail, re.M))
     lemmas = []
-    for path, line in locs:
+    for m in re.finditer(r"error: (Hive/[\w/]+\.lean):(\d+):\d+", detail):
+        path, line = m.group(1), int(m.group(2))
+        failed.add(path[:-5].replace("/", "."))
         try:
             src = open(os.path.join(checklib.LEAN, path)).read().split("\n")
         except OSError:
             continue
         for i in range(min(line, len(src)) - 1, -1, -1):
-            m = re.match(r"\s*(?:private\s+)?(?:theorem|lemma|def|example)\s+(\w+)?", src[i])
-            if m:
-                name = m.group(1) or "example"
-                if (name, path) not in [(n, p_) for n, p_, _ in lemmas]:
-                    lemmas.append((name, path, i + 1))
+            d = re.match(r"\s*(?:private\s+)?(?:theorem|lemma|def|example)\s+(\w+)?", src[i])
+            if d:
+                entry = f"{d.group(1) or 'example'} ({path}:{i + 1})"
+                if entry not in lemmas:
+                    lemmas.append(entry)
                 break
-    if not lemmas:
+    if not failed:
         return None
-    try:
-        props = open(os.path.join(checklib.LEAN, "Hive", "Props", "C19.lean")).read()
-    except OSError:
-        props = ""
-    blocks = {}
-    for m in re.finditer(r"^theorem\s+(C19_\w+)(.*?)(?=^theorem\s|^def\s|^example|^/-[-!]|^end\s|^section\s|\Z)", props, re.M | re.S):
-        blocks[m.group(1)] = m.group(2)
-    broken = {n for n, _, _ in lemmas}
-    changed = True
-    while changed:
-        changed = False
-        for name, body in blocks.items():
-            if name not in broken and any(re.search(r"\b" + re.escape(b) + r"\b", body) for b in broken):
-                broken.add(name)
-                changed = True
-    return {"first_failing": [f"{n} ({p_}:{l})" for n, p_, l in lemmas],
-            "theorems_resting_on_them": sorted(b for b in broken if b.startswith("C19_")),
-            "note": "lake stops at the first module that fails; modules that import it (later proofs) are not re-checked in this run"}
+    def theorems_of(mod):
+        try:
+            src = open(os.path.join(checklib.LEAN, *mod.split(".")) + ".lean").read()
+        except OSError:
+            return []
+        return re.findall(r"^\s*theorem\s+(\w+)", checklib.strip_comments(src), re.M)
+    for mod in sorted(failed):   # a failed module whose error lines were cut off: name its theorems
+        if not any(mod.replace(".", "/") + ".lean" in e for e in lemmas):
+            lemmas += [f"{t} ({mod})" for t in theorems_of(mod)]
+    broken, standing = [], []
+    for pm in PROPS_MODULES:
+        deps = {}
+        try:
+            checklib.lean_deps(pm, deps)
+        except Exception:
+            deps = {pm: None}
+        names = [t for t in theorems_of(pm) if t.startswith("C19_")]
+        (broken if (set(deps) | {pm}) & failed else standing).extend(names)
+    return {"modules_that_failed": sorted(failed), "first_failing": lemmas,
+            "theorems_resting_on_them": sorted(broken),
+            "theorems_still_proved_for_this_tree": sorted(standing),
+            "note": "one proof module per function: a module that does not import a failed one was re-checked against the regenerated model in this run"}
 
 
 def post(ctx, tie):
@@ -95,6 +104,8 @@ def post(ctx, tie):
     bt = _broken_theorems(ctx)
     if bt:
         ctx.obligation_failures.append({"kind": "broken-theorems", "detail": bt})
+        ctx.log("proofs that broke: " + "; ".join(bt["first_failing"][:4]) + f" -> {len(bt['theorems_resting_on_them'])} C19 theorems rest on them, "
+                f"{len(bt['theorems_still_proved_for_this_tree'])} C19 theorems of other functions still proved for this tree")
     if hits:
         ctx.obligation_failures.append({"kind": "counterexample-search", "detail": {
             "what": "first counterexample of each boundary enumeration (`cex <number of counterexamples> <operands> got <answer> want <exact answer>`): "
@@ -107,8 +118,7 @@ def post(ctx, tie):
 SPEC = {
     # one Props module per function (each rests only on the proof about that function: a change of safe_math.go breaks
     # exactly the modules of the functions whose behaviour it changes) + the module of the combined statements
-    "lean_props": ["Hive.Props.C19", "Hive.Props.C19Add", "Hive.Props.C19Sub", "Hive.Props.C19Mul", "Hive.Props.C19Div", "Hive.Props.C19Shl",
-                   "Hive.Props.C19MulU64", "Hive.Props.C19MulI64", "Hive.Props.C19MulDiv"],
+    "lean_props": PROPS_MODULES,
     "lean_namespace": ["Hive.GoInt", "Hive.Gen.SafeMath"],
     "driver": "drv_c19",
     "harness": "c19",
@@ -120,7 +130,7 @@ SPEC = {
                  "C19_go_types_covered", "C19_statement_holds", "C19_wrap_spec", "C19_mul64_spec", "C19_div64_spec",
                  "C19_error_identity", "C19_sentinels_distinct", "C19_ierrors_wrappers", "C19_error_sites_cover"] +
                 [f"C19_{f}_{c}" for f in ("add", "sub", "mul", "div", "shl", "mulU64", "mulI64") for c in ("never_wraps", "never_spurious", "error_iff")] +
-                ["C19_mulDiv64_never_spurious"],
+                ["C19_mulDiv64_never_spurious", "C19_bitLen_spec", "C19_trailingZeros_spec", "C19_add64_sub64_spec"],
     "trusted_base": ["translator harness/tools/translate-safemath (go/ast -> Lean, ~1000 lines incl. the error-expression renderer), cross-checked on every run by executing the generated definitions against the real functions",
                      "Go integer semantics Hive/Base/GoInt.lean + Hive/Model/SafeMathOps.lean (wrap-around, truncated division and remainder, shifts, & | ^ &^ and complement, bits.Mul64/Div64; specification theorems C19_wrap_spec / mul64_spec / div64_spec), validated against the raw Go operators exhaustively for 8-bit types and by samples for wider types",
                      "Go toolchain, compiled Lean driver"],
